@@ -2,6 +2,7 @@
 
 from __future__ import annotations
 
+from copy import deepcopy
 from typing import TYPE_CHECKING, ClassVar, Generic, TypeVar, cast
 from warnings import warn
 
@@ -203,6 +204,12 @@ class GrandCanonical(
             The exchange atoms.
         """
         self.context.exchange_atoms = value
+
+    def validate_simulation(self) -> None:
+        """This method also ensures that the constraints are saved in the context."""
+        self.context.last_constraints = deepcopy(self.atoms.constraints)
+
+        super().validate_simulation()
 
     def save_state(self) -> None:
         """Save the current state of the context and update move labels."""
